@@ -326,6 +326,56 @@ fn client_set_qname(it: &mut QuestionIterator, name: &[u8]) -> (r: Result<(), Er
     r
 }
 
+// C08 / C11 (question): deleting the question through the question cursor (compressed or pointer-free packet).  The object invariant holds again
+// for the resulting bytes -- a packet without a question, which the parser's policy rejects (open known finding; the structural view is exact) --
+// and a second delete through the same cursor is refused without touching anything
+fn client_delete_question(it: &mut QuestionIterator) -> (r: Result<(), Error>)
+    requires old(it).wf(), old(it).rr_iterator.offset.is_some(), old(it).pk().len() <= 0xffff,
+        (if old(it).pp().maybe_compressed { wf_packet(old(it).pk()) && uncompress_spec(old(it).pk()).len() <= 0xffff } else { pf_packet(old(it).pk()) }),
+    ensures
+        r.is_ok(), final(it).pp().wf(), pf_packet(final(it).pk()), !final(it).pp().maybe_compressed, final(it).rr_iterator.offset.is_none(),
+        be16(final(it).pk(), 4) == 0, final(it).pp().offset_question.is_none(), final(it).tfin() == old(it).tfin(),
+{
+    hide(pf_rr); hide(pf_rrs); hide(pf_rrs_end); hide(pf_n_opt); hide(pf_packet); hide(opt_at); hide(pcs_walk); hide(rec_ok); hide(opts); hide(wf_bytes); hide(recs_all); hide(sec_end); hide(n_opt);
+    hide(ParsedPacket::wf); hide(walk); hide(skip_walk); hide(uncompress_spec); hide(bmap); hide(wf_packet); hide(exp);
+    let ghost pp0 = it.pp(); let ghost p = it.pk();
+    proof {
+        assert(pp0.packet.is_some() && wf_bytes(p)) by { reveal(ParsedPacket::wf); }
+        lemma_unc_keeps_edns(pp0);
+        // the question cursor lies before every record section
+        assert(section_at(pp0, Some(12usize)) is Question && pp0.offset_question == Some(12usize) && be16(p, 4) == 1) by { reveal(ParsedPacket::wf); reveal(wf_bytes); lemma_wf_bytes_facts(p); lemma_name_end_bounds(p, 12); }
+        assert(!opt_lt(it.rr_iterator.offset, pp0.offset_question));
+        if pp0.maybe_compressed {
+            let u = uncompress_spec(p);
+            theorem_c05(p);
+            lemma_bmap_q(p);
+            lemma_un_pf_packet(p);
+            assert(be16(u, 4) == 1) by { assert(u.subrange(0, 12)[4] == p.subrange(0, 12)[4] && u.subrange(0, 12)[5] == p.subrange(0, 12)[5]); }
+            lemma_pcs_name_end(u, 12);
+            assert(12 + name_exp(p, 12).len() + 4 <= u.len()) by { reveal(pf_packet); }
+            assert forall|mid: ParsedPacket| #[trigger] after_unc(mid, pp0) implies del_ok(mid, 12, QuestionIterator::tne_of(mid.bytes(), 12), QuestionIterator::tnext_of(mid.bytes(), 12), Section::Question) by {
+                lemma_q_del_ok(mid); }
+        } else {
+            lemma_q_del_ok(pp0);
+            assert(del_ok(pp0, 12, it.rr_iterator.name_end as int, it.rr_iterator.offset_next as int, Section::Question));
+            assert forall|mid: ParsedPacket| #[trigger] after_unc(mid, pp0) implies del_ok(mid, 12, it.rr_iterator.name_end as int, it.rr_iterator.offset_next as int, Section::Question) by {
+                lemma_del_ok_eq(mid, pp0, 12, it.rr_iterator.name_end as int, it.rr_iterator.offset_next as int, Section::Question); }
+        }
+    }
+    let r = it.delete();
+    proof {
+        assert(r.is_ok());
+        let mid = choose|mid: ParsedPacket| #[trigger] after_unc(mid, pp0) && deleted(it.pp(), mid, 12, (if pp0.maybe_compressed { QuestionIterator::tnext_of(mid.bytes(), 12) } else { old(it).rr_iterator.offset_next as int }), Section::Question, false);
+        if !pp0.maybe_compressed { lemma_wf_eq(mid, pp0); }
+        lemma_q_del_ok(mid);
+        lemma_q_deleted_wf(it.pp(), mid);
+    }
+    let ghost it1 = *it;
+    let r2 = it.delete();
+    proof { assert(r2.is_err() && it.pp() == it1.pp() && it.rr_iterator.offset.is_none()); }
+    r
+}
+
 // ---------------------------------------------------------------------------------------------------------------------------------
 // C11, the general statement: a walk over the answer, the authority or the additional section that deletes an ARBITRARY subset of the records
 // it is given (in the additional section the walk is never given the OPT record: into_iter_additional() and next() skip it, wherever it sits).
